@@ -15,6 +15,7 @@ LEVEL = 'exploration'
 TECHNIQUE = 'property-based testing (Hypothesis): the three output files of one generated run_mapping run are cross-checked - CSV parsed with the csv module against a harness rendering of the JSON through the name tables, HDF5 read back (round trip) against the JSON, embedded taxonomy/markers against the inputs'
 RULE = ('cases = generated mapping runs with name tables present/absent, node names needing CSV quoting, 0..4 runners-up, flatten/drop, single-iteration runs; '
         'non-trivial = some record has a runner-up list of length >=1 AND (the taxonomy has a name table OR a level is inferred); distinct = distinct spec hash')
+RULE += '; additions: taxonomies of 130-300 nodes per level, queries of 11-36 cells, level names containing label / name / alias; the CSV rows are compared with the query order and the embedded marker table with the C08 reference model'
 ASSUMPTIONS = ['timestamps, durations and the metadata blocks are not compared']
 
 
